@@ -333,7 +333,10 @@ def main():
     own = job.get('own_names', [])
     rnd = random.Random(job.get('seed', 0))
     vals = probe_values(tales.DEFAULT_MARKER)
-    child_choices = list(itertools.product(CHILDREN, repeat=len(holes)))
+    children = CHILDREN
+    if job.get('children'):
+        children = [tuple(c[:2]) + (c[2], tuple(c[3])) for c in job['children']]
+    child_choices = list(itertools.product(children, repeat=len(holes)))
     value_choices = list(itertools.product(vals, repeat=len(probes)))
     pre_choices = [{}] + [{n: 'outer-' + n} for n in own] + \
         ([{n: 'outer-' + n for n in own}] if len(own) > 1 else [])
